@@ -13,6 +13,11 @@
        calc = rx for control requests, else min(LcStart[lc] + ts, rx)       -- the property's "calculated time"
    1 tick = 1 s, so the code's constants (1 s entry spacing, 1000 s young-window value) are 1 and 1000.
 
+   A message's identity is its position in the input (idx); its index FIELD (what the code's heap compares after the
+   calculated time) is a separate value and may repeat (IndexMode).  Among buffered messages with equal
+   (calc, index) the real heap's order is unspecified; the model picks the smaller idx (a prediction that differs
+   from the code there is a drift, judged by the contract - never a violation by itself).
+
    Invariants (TLC, all bounded behaviours): ThrAtLeastD (the crux of the ordering argument), Permutation,
    OrderedUnderBound.  With Record = TRUE the inputs are remembered and EmitScn prints one scenario line per
    complete behaviour: inputs, the predicted output order and the contract's verdict on it.                  *)
@@ -27,7 +32,9 @@ CONSTANTS Ecus,        \* set of ECU names (strings)
           RxDeltas,    \* reception time deltas (a negative one leaves the ordering claim's domain)
           Delays,      \* raw delays rx - (start + ts) of ordinary messages (negative: timestamp beyond rx; > D: outside the bound)
           CtrlDelays,  \* raw delays of control requests (their timestamp is ignored); {} = no control requests
-          Record       \* TRUE: remember the inputs (scenario emission), FALSE: exhaustive checking without history
+          Record,      \* TRUE: remember the inputs (scenario emission), FALSE: exhaustive checking without history
+          IndexMode    \* the messages' index field: "pos" = 0,1,2,.. (what one producer in adlt delivers), "zero" = never
+                       \* assigned, "mod2" = 0,1,0,1,.. (merged sources each numbered on their own): duplicates allowed
 
 VARIABLES n, rxNow, heap, win, thr, out, bound, inputs, done
 vars == <<n, rxNow, heap, win, thr, out, bound, inputs, done>>
@@ -73,7 +80,10 @@ Upd(w0, lc, rx, delay) ==
             cur1 == IF upd /\ delay > w1.cur THEN delay ELSE w1.cur
         IN [w |-> [lc |-> lc, entries |-> e2, cur |-> cur1], recalcT |-> (upd /\ delay > w1.cur), roll |-> FALSE, sw |-> FALSE]
 
-KeyLT(a, b) == a.calc < b.calc \/ (a.calc = b.calc /\ a.idx < b.idx)
+IndexOf(k) == CASE IndexMode = "pos" -> k [] IndexMode = "zero" -> 0 [] IndexMode = "mod2" -> k % 2
+KeyLE(a, b) == a.calc < b.calc \/ (a.calc = b.calc /\ a.index <= b.index)              \* the code's order: (calc, index)
+KeyLT(a, b) == a.calc < b.calc \/ (a.calc = b.calc /\ a.index < b.index)
+                \/ (a.calc = b.calc /\ a.index = b.index /\ a.idx < b.idx)            \* model's choice among equal keys
 HeapMin(h) == CHOOSE x \in h : \A y \in h : x = y \/ KeyLT(x, y)
 RECURSIVE Release(_, _, _, _)
 Release(h, o, t, rx) == IF h = {} THEN [h |-> h, o |-> o]
@@ -89,11 +99,11 @@ Proc(e, lc, rx, raw, ctrl) ==
       u == Upd(win[e], lc, rx, delay)
       ws == [win EXCEPT ![e] = u.w]
       t == IF u.recalcT THEN D + KeyMax(ws, rx) ELSE thr
-      r == Release(heap \cup {[idx |-> n, calc |-> calc]}, out, t, rx)
+      r == Release(heap \cup {[idx |-> n, index |-> IndexOf(n), calc |-> calc]}, out, t, rx)
   IN /\ ts >= 0
      /\ win' = ws /\ thr' = t /\ heap' = r.h /\ out' = r.o /\ n' = n + 1 /\ rxNow' = rx
      /\ bound' = (bound /\ delay <= D /\ rx >= rxNow)
-     /\ inputs' = IF Record THEN Append(inputs, [ecu |-> e, lc |-> lc, rx |-> rx, ts |-> ts, ctrl |-> ctrl,
+     /\ inputs' = IF Record THEN Append(inputs, [ecu |-> e, lc |-> lc, rx |-> rx, ts |-> ts, ctrl |-> ctrl, index |-> IndexOf(n),
                                                  roll |-> u.roll, sw |-> u.sw, capped |-> (~ctrl /\ raw < 0)])
                             ELSE inputs
 
@@ -114,7 +124,7 @@ Permutation == /\ Len(out) + Cardinality(heap) = n
                /\ \A i \in 1..Len(out) : out[i] \notin heap /\ out[i].idx \in 0..(n - 1)
                /\ \A m \in heap : m.idx \in 0..(n - 1)
                /\ (done => heap = {})
-Sorted == \A i \in 1..(Len(out) - 1) : KeyLT(out[i], out[i + 1])
+Sorted == \A i \in 1..(Len(out) - 1) : KeyLE(out[i], out[i + 1])     \* (strict when the index fields are unique)
 OrderedUnderBound == bound => Sorted
 ContractOk == Permutation /\ OrderedUnderBound
 
@@ -125,7 +135,7 @@ TableSeq == LET RECURSIVE T(_)
                         ELSE LET x == CHOOSE y \in S : \A z \in S : y <= z
                              IN <<[id |-> x, start |-> LcStart[x]]>> \o T(S \ {x})
             IN T(LcIds)
-EmitScn == done => PrintT(<<"SCN", ToJson([w |-> W, d |-> D, table |-> TableSeq, msgs |-> inputs,
+EmitScn == done => PrintT(<<"SCN", ToJson([w |-> W, d |-> D, index_mode |-> IndexMode, table |-> TableSeq, msgs |-> inputs,
                                            out |-> [i \in 1..Len(out) |-> out[i].idx],
                                            bound |-> bound, contract_ok |-> ContractOk])>>)
 =============================================================================
